@@ -85,6 +85,7 @@ let call_of (s : string) : M.call =
      | "EnvelopeFromFormat" -> let (x, y) = two () in M.CEnvFromFormat (x, y)
      | "ReplyTo" -> M.CReplyTo (one ())
      | "ReplyToFormat" -> let (x, y) = two () in M.CReplyToFormat (x, y)
+     | "Reset" -> M.CReset
      | "SetAddrHeader" -> (match a with h :: vals -> M.CGenSet (h, vals) | [] -> failwith "SetAddrHeader arity")
      | "SetAddrHeaderIgnoreInvalid" -> (match a with h :: vals -> M.CGenIgn (h, vals) | [] -> failwith "arity")
      | _ ->
@@ -136,9 +137,20 @@ let flags_out fl = if fl = [] then "-" else String.concat "" (List.map (fun b ->
 
 let run (toks : string list) : string =
   match toks with
-  | ["seq"; ops; ptab; stab; etab] ->
+  | [("seq" | "hist") as kind; ops; ptab; stab; etab] ->
     let parse = mk_parse ptab and str = mk_string stab and enc = mk_encode etab in
     let calls = calls_of ops in
+    (* "hist": additionally the observation after EVERY step: sender, recipients, the six stored lists *)
+    let steps =
+      if kind = "seq" then "" else begin
+        let optS = function None -> "ERR" | Some b -> hex_of_bytes b in
+        let (_, acc) = List.fold_left (fun (m, acc) c ->
+            let (m', _) = M.apply_call parse str enc m c in
+            let o = Printf.sprintf "%s;%s;%s" (optS (M.get_sender m')) (hexlist_out (M.get_recipients m'))
+                (String.concat "|" (List.map (fun k -> addr_list_out (M.lookup m' k)) keys)) in
+            (m', o :: acc)) ([], []) calls in
+        " P=" ^ (if acc = [] then "-" else String.concat "/" (List.rev acc))
+      end in
     let fl = M.run_flags parse str enc calls [] in
     let m = M.run parse str enc calls [] in
     let opt = function None -> "ERR" | Some b -> hex_of_bytes b in
@@ -147,7 +159,7 @@ let run (toks : string list) : string =
       (hexlist_out (M.get_recipients m))
       (String.concat "|" (List.map (fun k -> addr_list_out (M.lookup m k)) keys))
       (hex_of_bytes (M.render_addr str m))
-      (env_out { M.c_8bit = true; M.c_utf8 = true; M.c_dsn = false } [] [] m)
+      (env_out { M.c_8bit = true; M.c_utf8 = true; M.c_dsn = false } [] [] m) ^ steps
   | ["env"; caps; dsn; from; rcpts; ptab] ->
     (match M.apply_dsn_opts M.dsn_none (dsn_opts_of dsn) with
      | None -> "OPTERR"
